@@ -332,7 +332,7 @@ func (e *Env) GoCheck(src []byte, pkgFiles Files) (class, msg string) {
 }
 
 var errPhrases = []string{
-	"declared and not used", "imported and not used", "missing return", "assignment mismatch", "redeclared",
+	"overflows", "truncated", "already declared", "permits only one iteration variable", "expects", "declared and not used", "imported and not used", "missing return", "assignment mismatch", "redeclared",
 	"not enough arguments", "too many arguments", "not enough return values", "too many return values",
 	"used as value", "is not an expression", "is not a type", "is not used", "no new variables",
 	"non-boolean condition", "cannot use", "cannot convert", "cannot assign", "cannot infer", "cannot range over",
